@@ -10,7 +10,8 @@
 \*                 the row name, so the subtree of an alias child is admitted without being checked
 \*                 (named deviation; where valid # validcode the implementation accepts an invalid document).
 EXTENDS Integers, Sequences, FiniteSets, TLC
-CONSTANTS MaxNodes, MaxAttrs
+CONSTANTS MaxNodes, MaxAttrs,
+          Skels      \* which starting skeletons: subset of {"A", "B"}
 
 \* ---- the synthetic schema (row ids 1..7); the harness builds the same table
 Row == [i \in 1..7 |->
@@ -22,7 +23,7 @@ Row == [i \in 1..7 |->
     [] i = 4 -> [name |-> "body",     type |-> "R", attrs |-> {"name", "pos", "quat", "euler"}, subs |-> <<5, 6, 7>>,
                  cons |-> {[kind |-> "e", b |-> <<{"quat"}, {"euler"}>>]}]
     [] i = 5 -> [name |-> "inertial", type |-> "?", attrs |-> {"mass", "pos"},           subs |-> <<>>,
-                 cons |-> {[kind |-> "o", b |-> <<{"mass"}>>]}]
+                 cons |-> {}]        \* no constraint here: a duplicated inertial violates nothing but the cardinality
     [] i = 6 -> [name |-> "geom",     type |-> "*", attrs |-> {"size", "type", "fromto"}, subs |-> <<>>,
                  cons |-> {[kind |-> "o", b |-> <<{"size"}, {"fromto"}>>], [kind |-> "t", b |-> <<{"size", "type"}>>]}]
     [] OTHER -> [name |-> "site",     type |-> "*", attrs |-> {"pos"},                   subs |-> <<>>, cons |-> {}]]
@@ -30,8 +31,8 @@ Tags  == {"m", "opt", "req", "body", "inertial", "geom", "site", "worldbody", "f
 Attrs == {"model", "a", "b", "c", "x", "name", "pos", "quat", "euler", "mass", "size", "type", "fromto", "zz"}
 Alias == {"worldbody", "frame", "replicate"}
 
-VARIABLES doc, nattr, ev
-vars == <<doc, nattr, ev>>
+VARIABLES doc, nattr, base, ev
+vars == <<doc, nattr, base, ev>>
 
 Node(p) == CHOOSE n \in doc : n.path = p
 Kids(d, p) == {n \in d : Len(n.path) = Len(p) + 1 /\ SubSeq(n.path, 1, Len(p)) = p}
@@ -79,22 +80,25 @@ Valid(d)     == ValidNode(d, Root(d), 1, 0, TRUE)
 ValidCode(d) == ValidNode(d, Root(d), 1, 0, FALSE)
 Verdict(d) == [valid |-> Valid(d), validcode |-> ValidCode(d)]
 
-\* documents grow from the smallest conforming one: <m><req/><worldbody/></m>
-Init == /\ doc = {[path |-> <<>>, tag |-> "m", attrs |-> {}], [path |-> <<1>>, tag |-> "req", attrs |-> {}],
-                  [path |-> <<2>>, tag |-> "worldbody", attrs |-> {}]} /\ nattr = 0
+\* documents grow from a conforming skeleton: the smallest one, <m><req/><worldbody/></m>, or one with two
+\* nested bodies (cardinalities must be enforced per element also when the recursive row re-enters itself)
+SkelA == {[path |-> <<>>, tag |-> "m", attrs |-> {}], [path |-> <<1>>, tag |-> "req", attrs |-> {}],
+          [path |-> <<2>>, tag |-> "worldbody", attrs |-> {}]}
+SkelB == SkelA \cup {[path |-> <<2, 1>>, tag |-> "body", attrs |-> {}], [path |-> <<2, 1, 1>>, tag |-> "body", attrs |-> {}]}
+Init == /\ doc \in ({SkelA : x \in Skels \cap {"A"}} \cup {SkelB : x \in Skels \cap {"B"}}) /\ nattr = 0 /\ base = Cardinality(doc)
         /\ ev = Verdict(doc)
 \* append a child with the next free index under an existing node
 AddNode(p, tag) ==
-  /\ Cardinality(doc) < MaxNodes /\ Len(p) < 3
+  /\ Cardinality(doc) < base + MaxNodes /\ Len(p) < 3
   /\ \E n \in doc : n.path = p
   /\ LET idx == Cardinality(Kids(doc, p)) + 1 IN
      doc' = doc \cup {[path |-> Append(p, idx), tag |-> tag, attrs |-> {}]}
-  /\ UNCHANGED nattr /\ ev' = Verdict(doc')
+  /\ UNCHANGED <<nattr, base>> /\ ev' = Verdict(doc')
 AddAttr(p, a) ==
   /\ nattr < MaxAttrs /\ nattr' = nattr + 1
   /\ \E n \in doc : n.path = p /\ a \notin n.attrs
   /\ doc' = {IF n.path = p THEN [n EXCEPT !.attrs = @ \cup {a}] ELSE n : n \in doc}
-  /\ ev' = Verdict(doc')
+  /\ UNCHANGED base /\ ev' = Verdict(doc')
 Paths == {n.path : n \in doc}
 Next == \/ \E p \in Paths, t \in Tags \ {"m"} : AddNode(p, t)
         \/ \E p \in Paths, a \in Attrs : AddAttr(p, a)
